@@ -308,6 +308,9 @@ func buildPools(repo string) (*pools, error) {
 	p.add("txerror", "eramismatch", x(cborx.A(cborx.A(cborx.U(5), cborx.S("Babbage")), cborx.A(cborx.U(6), cborx.S("Conway")))), 0)
 	p.add("txerror", "applytx", x(cborx.A(cborx.A(cborx.U(6), cborx.A(cborx.A(cborx.U(1), cborx.A(cborx.U(0), cborx.A(cborx.U(5), cborx.U(10), cborx.U(20)))))))), 0)
 	p.add("txerror", "applytx-utxow", x(cborx.A(cborx.A(cborx.U(5), cborx.A(cborx.A(cborx.U(1), cborx.A(cborx.U(1), cborx.A(cborx.B(kh)))))))), 0)
+	// constructor 0 of the LEDGER failure is the UTXOW failure: [0, [tag, ...]]
+	p.add("txerror", "applytx-utxow0", x(cborx.A(cborx.A(cborx.U(6), cborx.A(cborx.A(cborx.U(0), cborx.A(cborx.U(1), cborx.A(cborx.B(kh)))))))), 0)
+	p.add("txerror", "applytx-utxow0-utxo", x(cborx.A(cborx.A(cborx.U(5), cborx.A(cborx.A(cborx.U(0), cborx.A(cborx.U(0), cborx.A(cborx.U(5), cborx.U(10), cborx.U(20)))))))), 0)
 	p.add("txerror", "text", x(cborx.S("rejected")), 0)
 	vsig := bytes.Repeat([]byte{0x11}, 48)
 	p.add("leiosvote", "vote", x(cborx.A(cborx.U(5), cborx.B(h32), cborx.U(9), cborx.B(vsig))), 0)
